@@ -694,7 +694,13 @@ def rule_G(ctx):
             seq_cases.append(('TriangularKernel(2.0) with boundary filtering', tri_true, list(KCLS['TriangularKernel'](2.0).call('toSlidingWindow')), True))
         except Exception:
             pass
-    for kern_label, mk, win, bnd in seq_cases:
+    # ... and tracks exactly as long as, and one fix longer than, the window (only the central fixes are then filtered)
+    xs_generic = xs
+    seq_cases = [(a_, b_, c_, d_, xs_generic) for a_, b_, c_, d_ in seq_cases]
+    seq_cases += [('list [1, 2, 3, 2, 1] on a track of 5 fixes', lambda: [1.0, 2.0, 3.0, 2.0, 1.0], [1 / 9.0, 2 / 9.0, 3 / 9.0, 2 / 9.0, 1 / 9.0], False, signals['as long as the window']),
+                  ('list [1, 2, 3, 2, 1] on a track of 6 fixes', lambda: [1.0, 2.0, 3.0, 2.0, 1.0], [1 / 9.0, 2 / 9.0, 3 / 9.0, 2 / 9.0, 1 / 9.0], False, signals['as long as the window'] + [4.0]),
+                  ('list [1, 2, 1] on a track of 3 fixes', lambda: [1.0, 2.0, 1.0], [0.25, 0.5, 0.25], False, [1.0, 5.0, 2.0])]
+    for kern_label, mk, win, bnd, xs in seq_cases:
         t = track_of(xs)
         n_cases += 1
         try:
@@ -719,6 +725,7 @@ def rule_G(ctx):
             if not (all(close(a, b) for a, b in zip(gx, wx)) and all(close(a, b) for a, b in zip(gy, wy)) and gz == zs):
                 found.setdefault('seq', (fs, 'filter_seq(track, kernel, [x, y]) leaves the smoothed x and y in the track it was given (and in the one it returns), z untouched',
                                          {'kernel': kern_label, 'which': tr_label, 'x': gx, 'expected x': wx, 'y': gy, 'expected y': wy, 'z': gz}))
+    xs = xs_generic
     # a history of calls with the default dimensions: a flat track (constant z) first, then a track whose z varies - every call
     # filters the dimensions it was asked for, whatever was filtered before (module-level defaults are shared between calls)
     zs_ = [-1.0 * k * k for k in range(len(xs))]
